@@ -88,7 +88,7 @@ func TestVerifC03(t *testing.T) {
 		big := map[int]string{7: "write", 23: "read"}[i%30]
 		return vfProfile{workers: 3 + r(6), txns: 6 + r(8), keys: 6 + r(10), fkMode: vfFk(r), persistMs: 1 + r(5),
 			gates: r(2) == 0, readers: 2, maxOps: 3 + r(5), abortPct: 20, yieldPct: 50, faults: big == "", // the limit transactions need longer than the forced max age
-			bigTxn: big}
+			bigTxn: big, file: i%4 == 3} // file: the reported counts/sizes must also be right in the persisted state (reopen)
 	})
 }
 
